@@ -14,7 +14,12 @@ RULE = ('fixed corpus (track shorter than the block list: file extended under --
         'bytes, bursts, zero-fill, whole file, stored hash bytes, parity bytes, both, file + track together, truncation / '
         'extension with --ignore_size, track cut short.  Per scenario: the real main() generates and corrects; the model is run on '
         'the parsed inputs of each processed file with the recorded hash / check / decode answers; predicate straight from the '
-        'statement.  non-trivial = at least one block flagged; distinct by (tool, codec, hash, fast, damage kind, set of verdicts).')
+        'statement.  non-trivial = at least one block flagged; distinct by (tool, codec, hash, fast, damage kind, set of verdicts).  '
+        'Added damage kinds: parity_swap (block and hash intact, parity of a neighbouring message), late_mix (>= 10 intact blocks, one '
+        'destroyed, a later one repairable: partial-recovery clause), over1 (one symbol beyond capacity).  Facade level: radius clause on '
+        'what ECCMan.decode accepts, errors only and with erasures (2e+f just beyond n-k), all codecs; ECCMan.decode = FacadeDec wrapper on '
+        'the captured answer of the inner decoder, all codecs.  Tool level: toolrun stream (whole correction runs against the composed '
+        'model) for the beyond-capacity kinds.')
 TRUSTED_EXTRA = ['modelled: header_ecc.entry_assemble + per-block loop + output assembly + counters + exit status; '
                  'structural_adaptive_ecc.stream_entry_assemble + detection pass + repair pass + output assembly/removal + counters + exit status',
                  'oracles (not verified): Hasher.hash (re-derived with hashlib on every call), ECCMan.check / ECCMan.decode '
